@@ -57,6 +57,10 @@ pub fn templates() -> Vec<&'static str> {
         "$0 && (1/0)", "$0 || (1/0)", "(1/0) || $0", "(1/0) && $0", "$0 ? (1/0) : $1", "$0 ? $1 : (1/0)", "[$0, 1/0][0]",
         "$0 && [1][5]", "$0 || int('x')", "($0 && (1/0)) ? 1 : 2", "[1].map(x, $0 && (1/0))", "!($0 && (1/0))",
         "$0 && $1 && (1/0)", "$0 || $1 || (1/0)", "($0 || (1/0)) && $1",
+        // run-time-only macros and functions nested in collections inside a foldable call
+        "[1].map(z, [has($0)])", "zip([coalesce($0, 7)], [1])", "[1].map(z, [[has($0.a)]])", "[1].map(z, {'k': [coalesce($0, 1)]})",
+        "[1].map(z, [has({'a': $0}.a), z])", "[[1].map(z, [coalesce(null, $0)])]",
+        "[1, 2, 3].map(x, x > $0, x * 2)", "[1, 2, 3].map(x, $0, x)", "{'a': 1}.map(k, k == $0, k)",
         // macros nested inside collections inside macro bodies
         "[1, 2].map(i, [i, [10, 20].filter(v, v > $0)])", "[1].map(x, {'id': x, 'tags': ['a', 'b'].map(t, t + $0)})",
         "[1].map(x, [[2].map(y, [y, $0])])", "[[1].map(x, [x, $0])].map(z, z)",
@@ -253,7 +257,7 @@ fn has_pushed_time(bc: &[ByteCode]) -> bool {
     })
 }
 
-const CLOCK_SRCS: [&str; 14] = [
+const CLOCK_SRCS: [&str; 17] = [
     // two and more call / macro-body blocks below a foldable call
     "dyn(dyn(now()))",
     "[1].map(x, dyn(timestamp()))[0]",
@@ -261,6 +265,10 @@ const CLOCK_SRCS: [&str; 14] = [
     "timestamp(string(dyn(now())))",
     "[1].map(x, [2].map(y, [now()][0])[0])[0]",
     "{'a': [dyn(timestamp())]}.a[0]",
+    // receiver form on a constant receiver
+    "(1).now()",
+    "'utc'.now()",
+    "[1].map(x, x.now())[0]",
     "now()",
     "timestamp()",
     "[now()][0]",
